@@ -378,6 +378,30 @@ func konst(t reflect.Type, v any) gen {
 	return gen{fmt.Sprintf("%#v", v), func() reflect.Value { return reflect.ValueOf(v).Convert(t) }}
 }
 
+// pick2 are the two element values used inside pointers, options, slices and maps: the first
+// and the second one, for a struct element the first and the last ("all second values": the
+// one whose every field holds something, so that storage inside the element is reachable).
+func pick2(t reflect.Type, ed []gen) []gen {
+	if len(ed) < 2 {
+		return ed
+	}
+	if t.Kind() == reflect.Struct && !isOption(t) {
+		return []gen{ed[0], ed[len(ed)-1]}
+	}
+	return ed[:2]
+}
+
+// richSecond puts the richest value of a struct element in second place (slices and maps
+// take their elements by index).
+func richSecond(t reflect.Type, ed []gen) []gen {
+	if len(ed) > 2 && t.Kind() == reflect.Struct && !isOption(t) {
+		c := append([]gen(nil), ed...)
+		c[1], c[len(c)-1] = c[len(c)-1], c[1]
+		return c
+	}
+	return ed
+}
+
 // domOf is the small domain of a component type: 2-3 values. Slices form a chain
 // nil, [e0], [e1 e0] (plus [e0 e1] when the slice type itself is overridden), so that every
 // pair is ordered by its first element or by being a prefix: the lawfulness of the primitive
@@ -397,10 +421,7 @@ func domOf(t reflect.Type, p Opt, depth int) []gen {
 			return out
 		}
 		ed := domOf(t.Elem(), p, depth-1)
-		for i, e := range ed {
-			if i >= 2 {
-				break
-			}
+		for _, e := range pick2(t.Elem(), ed) {
 			e := e
 			out = append(out, gen{"&" + e.desc, func() reflect.Value {
 				v := reflect.New(t.Elem())
@@ -410,7 +431,7 @@ func domOf(t reflect.Type, p Opt, depth int) []gen {
 		}
 		return out
 	case reflect.Slice:
-		ed := domOf(t.Elem(), p, depth)
+		ed := richSecond(t.Elem(), domOf(t.Elem(), p, depth))
 		mk := func(idx ...int) gen {
 			var ds []string
 			for _, j := range idx {
@@ -441,7 +462,7 @@ func domOf(t reflect.Type, p Opt, depth int) []gen {
 		if t.Key().Kind() != reflect.String {
 			panic("lawlib: domOf: map key " + t.Key().String())
 		}
-		ed := domOf(t.Elem(), p, depth)
+		ed := richSecond(t.Elem(), domOf(t.Elem(), p, depth))
 		mk := func(keys []string, idx ...int) gen {
 			var ds []string
 			for i, j := range idx {
@@ -464,10 +485,7 @@ func domOf(t reflect.Type, p Opt, depth int) []gen {
 		if isOption(t) {
 			ed := domOf(t.Field(1).Type, p, depth)
 			out := []gen{{"None", func() reflect.Value { return reflect.Zero(t) }}}
-			for i, e := range ed {
-				if i >= 2 {
-					break
-				}
+			for _, e := range pick2(t.Field(1).Type, ed) {
 				e := e
 				out = append(out, gen{"Some(" + e.desc + ")", func() reflect.Value {
 					v := reflect.New(t).Elem()
